@@ -256,3 +256,11 @@ Definition zk_session (is_session : bool) (st : zkstate) (connected : bool) : li
     | ZkOtherState => []
     end
   else [].
+
+(* ---- a group refresh and the storage subsystem: sendClusterRequest / processClusterList (:347-357, :468-507) ----
+   Each storage request is handed over with helpers.TimeoutSendStorageRequest(channel, request, 1).  If it is not taken
+   off App.StorageChannel within that second the request is dropped; the goroutine that waits for the reply
+   (processClusterList / processConsumerList) stays blocked on its reply channel and no cluster or group record is
+   touched.  A refresh that is not answered is therefore NO event of the model; an answered one is Refresh. *)
+Definition refresh_events (answered : bool) (now : Z) (present : list (positive * Z)) : list event :=
+  if answered then [Refresh now present] else [].
